@@ -27,7 +27,12 @@
 (*   timeout(what) what = "eof": y finished (hc / close / refusal) at least*)
 (*                the deadline ago and x still saw neither eof nor reset;   *)
 (*                "write": a write made no progress; "accept": the target  *)
-(*                was never connected to                                    *)
+(*                was never connected to; "delivery": everything x had     *)
+(*                sent was not received by y within the deadline although  *)
+(*                y's reader was running all the time                      *)
+(*   ron          x starts reading (an endpoint may begin with its reader  *)
+(*                held: it then reads nothing, so the direction towards it *)
+(*                fills up and the peer's writes block - back-pressure)    *)
 (*                                                                         *)
 (* `abort`: from this point on completeness is no longer promised, because *)
 (* a direct connection would not promise it either: an endpoint closed     *)
@@ -48,6 +53,11 @@
 (*                     half-close does arrive (no timeout)                 *)
 (*   ClosedNotHanging  after y closed or refused, x sees eof or a reset    *)
 (*                     within the deadline (no timeout) - nothing more     *)
+(*   Independent       the two directions are independent pipes: what x    *)
+(*                     sends reaches a reading y although the opposite     *)
+(*                     direction is blocked (y's own writes are stuck      *)
+(*                     because x does not read).  A direct connection      *)
+(*                     delivers at once; the harness allows the deadline.  *)
 (* Not a monitor of the property, but named so that it can be reported:    *)
 (*   StalledAfterClose a write of x blocks for good after y closed (x did  *)
 (*                     see its eof / reset; a direct connection would fail *)
@@ -61,10 +71,12 @@ Other(x) == IF x = "c" THEN "t" ELSE "c"
 Both(v) == [x \in Sides |-> v]
 
 TcpInit == [sent |-> Both(0), rcvd |-> Both(0), hc |-> Both(FALSE), closed |-> Both(FALSE),
-            eof |-> Both(FALSE), rst |-> Both(FALSE), est |-> Both(FALSE),
+            eof |-> Both(FALSE), rst |-> Both(FALSE), est |-> Both(FALSE), reading |-> Both(TRUE),
             refused |-> FALSE, abort |-> FALSE]
+\* the same with the readers of the endpoints in `held` not yet started
+TcpInitHeld(held) == [TcpInit EXCEPT !.reading = [x \in Sides |-> x \notin held]]
 
-Monitors == {"Prefix", "Complete", "HalfClose", "ClosedNotHanging"}
+Monitors == {"Prefix", "Complete", "HalfClose", "ClosedNotHanging", "Independent"}
 
 \* the monitors that event e of endpoint x violates in state s ("Connect", "Script": the connection was not
 \* established although nothing refused it / the script itself is malformed)
@@ -82,12 +94,21 @@ Failing(s, x, e) ==
  \cup (IF e.ev = "reset" /\ ~(gone \/ s.abort) THEN {"HalfClose"} ELSE {})
  \cup (IF e.ev = "timeout" /\ e.what = "eof" /\ ~gone THEN {"HalfClose"} ELSE {})
  \cup (IF e.ev = "timeout" /\ e.what = "eof" /\ gone THEN {"ClosedNotHanging"} ELSE {})
+      \* what x sent did not arrive at a reading y within the deadline: only an abort excuses that.  (Like the other
+      \* timeouts this is a statement of the harness about BOTH endpoints, made on its own clock: it holds wherever
+      \* the event is placed among y's events, in particular before the `recv` by which y gets the octets later on.)
+ \cup (IF e.ev = "timeout" /\ e.what = "delivery" /\ ~s.abort THEN {"Independent"} ELSE {})
+      \* (a script that waits for delivery to a peer whose reader is held is malformed: the harness says so itself)
+ \cup (IF e.ev = "timeout" /\ e.what = "delivery" /\ ~e.peer_reading THEN {"Script"} ELSE {})
  \cup (IF e.ev = "timeout" /\ e.what = "accept" THEN {"Connect"} ELSE {})
  \cup (IF e.ev = "hs" /\ ~e.ok /\ ~s.refused THEN {"Connect"} ELSE {})
  \cup (IF e.ev \in {"send", "hc"} /\ (s.hc[x] \/ s.closed[x]) THEN {"Script"} ELSE {})
  \cup (IF e.ev \in {"close", "recv", "eof", "reset"} /\ s.closed[x] THEN {"Script"} ELSE {})
+      \* a held reader reads nothing
+ \cup (IF e.ev \in {"recv", "bad", "extra", "eof"} /\ ~s.reading[x] THEN {"Script"} ELSE {})
+ \cup (IF e.ev = "ron" /\ (s.reading[x] \/ s.closed[x]) THEN {"Script"} ELSE {})
  \cup (IF e.ev \notin {"hs", "accepted", "refused", "send", "hc", "close", "recv", "bad", "extra", "eof",
-                       "reset", "timeout"} THEN {"Script"} ELSE {})
+                       "reset", "timeout", "ron"} THEN {"Script"} ELSE {})
 
 Step(s, x, e) ==
   LET y == Other(x) IN
@@ -102,6 +123,7 @@ Step(s, x, e) ==
     [] e.ev = "reset"   -> [s EXCEPT !.rst[x] = TRUE, !.abort = TRUE]
     [] e.ev = "refused" -> [s EXCEPT !.refused = TRUE, !.abort = TRUE]
     [] e.ev \in {"hs", "accepted"} -> [s EXCEPT !.est[x] = TRUE]
+    [] e.ev = "ron"     -> [s EXCEPT !.reading[x] = TRUE]
     [] OTHER            -> s
 
 \* the end of the connection (both endpoints have nothing more to report)
@@ -111,20 +133,25 @@ EndFailing(s) ==
 (***************************************************************************)
 (* UDP.  No connection, hence no state machine: a RELATION over the four   *)
 (* per-endpoint histories of one exchange.                                 *)
-(*   sent    datagrams of the local clients  [k, j, n, dg, to]             *)
+(*   sent    datagrams of the local clients  [k, j, n, dg, to, tgt]        *)
 (*           (client, number, length, digest of the payload, the address   *)
-(*           the client sent to)                                            *)
-(*   trecv   datagrams the target received   [r, src, n, dg]               *)
-(*   treply  replies the target sent         [r, to, n, dg]  (to = a src)  *)
+(*           the client sent to = the relay, the target it is addressed    *)
+(*           to: a UDP remote has one target, a SOCKS5 association names   *)
+(*           the target in the header of every datagram)                   *)
+(*   trecv   datagrams a target received     [r, src, n, dg, tgt]          *)
+(*           (tgt = the target that received it)                           *)
+(*   treply  replies a target sent           [r, to, n, dg, tgt] (to = src)*)
 (*   crecv   datagrams the clients received  [k, from, n, head, sfx]       *)
 (*           head = the first octets, sfx[i+1] = digest of the octets from *)
 (*           offset i on: the payload behind a header of i octets is       *)
 (*           [n - i, sfx[i+1]] whatever i turns out to be                   *)
 (*   mode    "udp" (a UDP remote) or "socks5" (a UDP association)          *)
-(*   tgt     [addr, port] of the target                                    *)
+(*   tgts    [addr, port] of the targets (tgt above is an index into it)   *)
 (* Payloads are compared as (length, digest).  The relation:               *)
-(*   U1  the datagrams the target received are, as a bag, the datagrams    *)
-(*       the clients sent (unmodified, none lost, none duplicated)         *)
+(*   U1  the datagrams the targets received are, as a bag, the datagrams   *)
+(*       the clients sent (unmodified, none lost, none duplicated), each   *)
+(*       at the target it was addressed to - also when one client (one     *)
+(*       association, one local socket) talks to several targets in turn   *)
 (*   U2  a source address seen by the target belongs to the client whose   *)
 (*       datagram arrived from it; every reply sent to a source is         *)
 (*       delivered to exactly that client (bag equality per client),       *)
@@ -134,6 +161,7 @@ EndFailing(s) ==
 (*       section 7, Socks.tla); the payload is what follows the header     *)
 (***************************************************************************)
 Pay(e) == <<e.n, e.dg>>
+APay(e) == <<e.n, e.dg, e.tgt>>          \* a datagram together with the target it is addressed to / arrived at
 Idx(q) == 1 .. Len(q)
 Count(q, P(_)) == Cardinality({i \in Idx(q) : P(q[i])})
 
@@ -147,7 +175,7 @@ Recovered(h, cr) ==
 \* does the header name the target?  (RFC 1928 does not say what the fields of a relayed reply contain; the
 \* property demands a well-formed header and the payload; reported as a note, a violation only on request)
 HeaderNamesTarget(h, cr) ==
-  LET p == Parsed(h, cr) IN p.st = "ok" /\ p.addr = h.tgt.addr /\ p.port = h.tgt.port
+  LET p == Parsed(h, cr) IN p.st = "ok" /\ \E t \in Idx(h.tgts) : p.addr = h.tgts[t].addr /\ p.port = h.tgts[t].port
 
 \* the clients a source address of the target's view belongs to: those with a datagram, sent by nobody else,
 \* that arrived from it
@@ -160,12 +188,16 @@ Clients(h) == {h.sent[i].k : i \in Idx(h.sent)} \cup {h.crecv[i].k : i \in Idx(h
 Dest(h, k) == {h.sent[i].to : i \in {i \in Idx(h.sent) : h.sent[i].k = k}}
 
 UdpFailing(h, strictAddr) ==
-  LET sentPays  == {Pay(h.sent[i]) : i \in Idx(h.sent)}
-      trecvPays == {Pay(h.trecv[i]) : i \in Idx(h.trecv)}
+  LET sentPays  == {APay(h.sent[i]) : i \in Idx(h.sent)}
+      trecvPays == {APay(h.trecv[i]) : i \in Idx(h.trecv)}
+      \* a datagram that only one client sent, and only to one target, arrived at another target
+      misrouted == \E m \in Idx(h.trecv) : \E i \in Idx(h.sent) :
+                      /\ Pay(h.trecv[m]) = Pay(h.sent[i]) /\ h.trecv[m].tgt # h.sent[i].tgt
+                      /\ \A j \in Idx(h.sent) : Pay(h.sent[j]) = Pay(h.sent[i]) => h.sent[j].tgt = h.sent[i].tgt
       replyPays == {Pay(h.treply[i]) : i \in Idx(h.treply)}
       okRecv    == {i \in Idx(h.crecv) : HeaderOK(h, h.crecv[i])}
-      NSent(v)  == Count(h.sent, LAMBDA e : Pay(e) = v)
-      NTrecv(v) == Count(h.trecv, LAMBDA e : Pay(e) = v)
+      NSent(v)  == Count(h.sent, LAMBDA e : APay(e) = v)
+      NTrecv(v) == Count(h.trecv, LAMBDA e : APay(e) = v)
       \* replies with payload v owed to client k / received by client k
       Owed(k, v) == Count(h.treply, LAMBDA e : Pay(e) = v /\ Owner(h, e.to) = {k})
       Got(k, v)  == Cardinality({i \in okRecv : h.crecv[i].k = k /\ Recovered(h, h.crecv[i]) = v})
@@ -173,7 +205,8 @@ UdpFailing(h, strictAddr) ==
       GotAll(v)  == Cardinality({i \in okRecv : Recovered(h, h.crecv[i]) = v})
       OwedAll(v) == Count(h.treply, LAMBDA e : Pay(e) = v)
       base ==
-          (IF \E v \in trecvPays : v \notin sentPays THEN {"udp_datagram_modified"} ELSE {})
+          (IF misrouted THEN {"udp_datagram_wrong_target"} ELSE {})
+     \cup (IF ~misrouted /\ \E v \in trecvPays : v \notin sentPays THEN {"udp_datagram_modified"} ELSE {})
      \cup (IF \E v \in sentPays : NTrecv(v) > NSent(v) THEN {"udp_datagram_duplicated"} ELSE {})
      \cup (IF \E v \in sentPays : NTrecv(v) < NSent(v) THEN {"udp_datagram_lost"} ELSE {})
      \cup (IF \E i \in Idx(h.crecv) : ~HeaderOK(h, h.crecv[i]) THEN {"socks5_udp_header"} ELSE {})
